@@ -43,7 +43,7 @@ META = {
     'ref': 'DESIGN.md section 5 C10',
 }
 
-PARAMS = ('a', 'b', 'n', 's', 'l', 'k', 'z', 'oi')
+PARAMS = ('a', 'b', 'n', 's', 'l', 'k', 'z', 'oi', 'r1', 'r2')
 LENGTH = {'s': ('minchars', 'maxchars'), 'l': ('minlen', 'maxlen'), 'k': ('minbytes', 'maxbytes')}   # limits = lengths
 UNITS = {'': 0, 'mm': 1, 'K': 2}
 VIS = {1: 'user', 2: 'advanced', 3: 'expert', 9: 'bogus'}
@@ -67,10 +67,14 @@ def _classes():
         ou = Parameter('optional, not implemented', FloatRange(0, 100), default=2, readonly=False, optional=True)
         oc = Command(IntRange(0, 5), result=IntRange(0, 5), description='optional, implemented', optional=True)
         od = Command(description='optional, not implemented', optional=True)
+        r1 = Parameter('default here, required by the subclass', FloatRange(0, 100), default=0, readonly=False)
 
     class CfgMod(CfgBase):
         """shape known to spec/ConfigRules.tla (PInfo, MInfo)"""
         oi = Parameter()
+        r1 = Parameter(needscfg=True)           # tightens the inherited parameter: a value must be configured
+        r2 = Parameter('required although it has a default', FloatRange(0, 100), default=1, needscfg=True,
+                       readonly=False)
 
         def write_oi(self, value):
             self._hw('write', 'oi', value)
@@ -504,6 +508,8 @@ def random_cfg(rnd, healthy=0.5):
     clean = rnd.random() < healthy
     put('mp', 'value', _num(rnd, 0, 10, ('int',)), rnd.choice('BP'))
     put('n', 'value', _num(rnd, 0, 200), rnd.choice('BP'))
+    put('r1', 'value', _num(rnd, 0, 200), rnd.choice('BP'))
+    put('r2', 'value', _num(rnd, 0, 200), rnd.choice('BP'))
     for p, (lo, hi) in (('a', (0, 200)), ('b', (0, 20)), ('n', (0, 200))):
         kinds = ('int',) if p == 'b' else ('int', 'float')
         if rnd.random() < 0.4:
@@ -546,7 +552,10 @@ def random_cfg(rnd, healthy=0.5):
             elif k == 3:
                 es.pop(('mp', 'value'), None)
             elif k == 4:
-                es.pop(('n', 'value'), None)
+                p = rnd.choice(['n', 'r1', 'r2'])
+                es.pop((p, 'value'), None)
+                if rnd.random() < 0.5:          # only a default given for the required value
+                    put(p, 'default', _num(rnd, 0, 200))
             elif k == 5:
                 put(p, 'min', _num(rnd, 300, 340, ('int',)))
             elif k == 6:
